@@ -35,6 +35,9 @@ CHECKS['C10'] = dict(engine='Codec', tech='TLA+ spec (Codec.tla on BigInt limb a
 CHECKS['C16'] = dict(engine='Timelock', tech='TLA+ spec (Timelock.tla = TapeVM instruction semantics run inside TLC vs declarative windows) with TLC on an exhaustive boundary grid + replay through the real instructions / builders with a pinned clock + TLC judging of recorded 63-bit cases',
                 text='TLC runs the documented lock instruction sequences on the VM specification and proves operational = declarative window on the exhaustive (t, now, c, threshold) x encoding grid; each grid point is replayed (shifted to a realistic clock) through run_script with the real builders, whose bytes are compared with the documented sequence; random large cases are recorded and judged by TLC in limb arithmetic.',
                 ref='5 C16', note=PURE_NOTE)
+CHECKS['C19'] = dict(engine='Registry', tech='TLA+ spec (Registry.tla history machine) with TLC: every registry state x every call (VIEW hides the history) + replay of history+call in a fresh interpreter + TLC validation of recorded random API histories',
+                text='The registries are specified as sets with observation calls (run / compile / assemble) whose results are functions of arguments and registry only; TLC explores every reachable registry state x last observation x every call and prints each transition with a shortest history, which is replayed against the real add/remove/reset/run/compile API in a fresh interpreter state (registry snapshot, plugins and contracts actually used by a run, compile output, caller dictionaries); random 40-call histories recorded from the API are checked call by call by TLC.',
+                ref='5 C19', note=PURE_NOTE)
 NOT_YET = {}
 
 props = [json.loads(l) for l in open(os.path.join(ROOT, 'properties.jsonl'))]
@@ -68,6 +71,7 @@ manifest = {
         'add_only': True,
     },
     'engines': [
+        {'name': 'Registry', 'path': '/verif/spec/Registry.tla', 'serves_properties': ['C19'], 'kind_free_text': 'extension registries as a history machine'},
         {'name': 'Codec', 'path': '/verif/spec/Codec.tla', 'serves_properties': ['C10'], 'kind_free_text': 'integer / float32 encodings on byte sequences (BigInt.tla limb arithmetic)'},
         {'name': 'Timelock', 'path': '/verif/spec/Timelock.tla', 'serves_properties': ['C16'], 'kind_free_text': 'time windows: TapeVM run inside TLC vs declarative predicates'},
         {'name': 'TapeVM', 'path': '/verif/spec/TapeVM.tla', 'serves_properties': ['C01', 'C06', 'C07', 'C08', 'C09', 'C20'],
